@@ -1009,13 +1009,30 @@ def _rot_word(cx, e, angles):
         b = _rot_word(cx, e.right, angles)
         return None if a is None or b is None else a + b
     for ax in 'xyz':
-        b = matches('rot%s(%s[_I])' % (ax, angles), e)
-        if b is not None and isinstance(b['_I'], ast.Constant):
+        # the angle vector is whatever local is indexed inside the axis rotations -- one and the same in every factor of the word
+        b = matches('rot%s(_A[_I])' % ax, e)
+        if b is not None and isinstance(b['_I'], ast.Constant) and isinstance(b['_A'], ast.Name):
+            seen = getattr(cx, '_angle_name', None)
+            if seen is None:
+                cx._angle_name = b['_A'].id
+            elif seen != b['_A'].id:
+                return None
             return [(ax, b['_I'].value)]
         b = matches('rot%s(_N)' % ax, e)
         if b is not None and isinstance(b['_N'], ast.Name) and b['_N'].id in _unpacked_slots(cx):
             return [(ax, _unpacked_slots(cx)[b['_N'].id])]
     return None
+
+
+def _indexed_in_rotations(fnode):
+    """names N that occur as rotx/roty/rotz(N[i]) in the function: the angle vector(s), which stay symbolic"""
+    out = set()
+    for c in ast.walk(fnode):
+        if isinstance(c, ast.Call) and c.args and isinstance(c.args[0], ast.Subscript) and isinstance(c.args[0].value, ast.Name):
+            fn = c.func.attr if isinstance(c.func, ast.Attribute) else (c.func.id if isinstance(c.func, ast.Name) else '')
+            if fn in ('rotx', 'roty', 'rotz'):
+                out.add(c.args[0].value.id)
+    return tuple(sorted(out)) or ('angles',)
 
 
 def _unpacked_slots(cx):
@@ -1079,7 +1096,7 @@ def rotation_words(run, rule='R12'):
         from ..cfg import pure_locals, _subst_pure
         for st in body:
             if isinstance(st, (ast.Assign, ast.Return)) and st.value is not None:
-                w = _rot_word(cx, canon(cx.fi, _subst_pure(st.value, pure_locals(f.node, keep=('angles',))), inline=False), 'angles')
+                w = _rot_word(cx, canon(cx.fi, _subst_pure(st.value, pure_locals(f.node, keep=_indexed_in_rotations(f.node))), inline=False), 'angles')
         label = '/'.join(sorted(names))
         if w is None:
             run.error('R12: rpy2r branch %s: not a product of rotx/roty/rotz(angles[i])' % label)
@@ -1098,7 +1115,7 @@ def rotation_words(run, rule='R12'):
     ce = Ctx(run, 'base/transforms3d:eul2r')
     r = _single_return_value(ce)
     from ..cfg import pure_locals, _subst_pure
-    w = _rot_word(ce, canon(ce.fi, _subst_pure(r.value, pure_locals(ce.f.node, keep=('angles',))), inline=False), 'angles') if r is not None else None
+    w = _rot_word(ce, canon(ce.fi, _subst_pure(r.value, pure_locals(ce.f.node, keep=_indexed_in_rotations(ce.f.node))), inline=False), 'angles') if r is not None else None
     want = [('z', 0), ('y', 1), ('z', 2)]
     if w is None:
         run.error('R12: eul2r: return is not a product of rotations of angles[i]')
